@@ -84,6 +84,12 @@ LONELY = [
     ("vecu64", "void fill64(std::vector<uint64_t> &v +intent(out))", "void fill64(std::vector<uint64_t> &v);", "#include <vector>\n#include <cstdint>\n"),
     ("vecsz", "size_t total(const std::vector<size_t> &v)", "size_t total(const std::vector<size_t> &v);", "#include <vector>\n#include <cstddef>\n"),
     ("arr32", "void scale32(int32_t *v +rank(1)+intent(inout), int n +implied(size(v)))", "void scale32(int32_t *v, int n);", "#include <cstdint>\n"),
+    # non-const std::string results by pointer / reference, caller-owned results of several element types
+    ("strptr", "std::string *newstr(int v)", "std::string *newstr(int v);", "#include <string>\n"),
+    ("strref", "std::string &refstr(int v)", "std::string &refstr(int v);", "#include <string>\n"),
+    ("strown", "std::string *ownstr(int v) +owner(caller)", "std::string *ownstr(int v);", "#include <string>\n"),
+    ("cstrown", "char *dupname(int v) +owner(caller)", "char *dupname(int v);", ""),
+    ("dblown", "double *newdbls(int n) +owner(caller)+dimension(n)+deref(pointer)", "double *newdbls(int n);", ""),
     ("vecimpl", "int vsum(const std::vector<int> &a0, int a1 +implied(size(a0)))", "int vsum(const std::vector<int> &a0, int a1);", "#include <vector>\n"),
 ]
 
